@@ -65,8 +65,9 @@ impl Live {
     }
 
     /// independent DeviceAuthentication to-be-signed bytes for a (possibly altered) response, with a given transcript
-    pub fn device_tbs(transcript: &Value, v: &Value) -> Option<Vec<u8>> {
-        let d = doc0(v)?;
+    pub fn device_tbs(transcript: &Value, v: &Value) -> Option<Vec<u8>> { Live::device_tbs_of(transcript, doc0(v)?) }
+    /// Sig_structure of the device signature of document `d` (the reader authenticates the first mDL document)
+    pub fn device_tbs_of(transcript: &Value, d: &Value) -> Option<Vec<u8>> {
         let doc_type = mget(d, "docType")?.clone();
         let dns = mget(mget(d, "deviceSigned")?, "nameSpaces")?.clone();
         let da = Value::Array(vec![Value::Text("DeviceAuthentication".into()), transcript.clone(), doc_type, dns]);
@@ -166,7 +167,7 @@ pub fn facts(v: &Value, registry: &TrustAnchorRegistry, transcript: &Value) -> S
     let datt = dsig_v.and_then(|a| a.get(2)).map(|p| p.as_bytes().is_some()).unwrap_or(false);
     let dsigb = dsig_v.and_then(|a| a.get(3)).and_then(|p| p.as_bytes()).cloned().unwrap_or_default();
     let dsp = Signature::from_slice(&dsigb);
-    let dtbs = Live::device_tbs(transcript, v);
+    let dtbs = d.and_then(|d| Live::device_tbs_of(transcript, d));
     let dsa = match (&dsp, &dvk, &dtbs) { (Ok(s), Some(k), Some(tbs)) => k.verify(tbs, s).is_ok(), _ => false };
     // issuer data authentication (ISO 9.1.2.4): digests and docType
     let alg = mso_v.as_ref().and_then(|m| mget(m, "digestAlgorithm")).and_then(|a| a.as_text()).unwrap_or("").to_string();
@@ -227,6 +228,23 @@ fn reported_covered(v: &Value, o: &ResponseAuthenticationOutcome) -> bool {
     true
 }
 
+/// the model computes the cryptographic facts itself from the bytes on the wire (Model/ResponseFacts.lean: its own ECDSA over its
+/// own P-256 and SHA-2, the digest comparison, the docType comparison); this is the same list as computed here with RustCrypto
+pub fn crypto_facts_line(v: &Value, f: &str, transcript: &Value) -> (String, String) {
+    let d = mget(v, "documents").and_then(|d| d.as_array()).and_then(|a| a.iter().find(|x| mget(x, "docType").and_then(|s| s.as_text()) == Some(MDL)));
+    let ia = d.and_then(|d| mget(d, "issuerSigned")).and_then(|i| mget(i, "issuerAuth")).and_then(cose_arr);
+    let x5v = ia.and_then(|a| a.get(1)).and_then(|u| u.as_map()).and_then(|m| m.iter().find(|(k, _)| k.as_integer().map(i128::from) == Some(33)).map(|(_, v)| v.clone()));
+    let first_der: Option<Vec<u8>> = match &x5v { Some(Value::Bytes(b)) => Some(b.clone()), Some(Value::Array(a)) => a.first().and_then(|x| x.as_bytes().cloned()), _ => None };
+    let key = first_der.and_then(|d| { use der::Decode; x509_cert::Certificate::from_der(&d).ok() })
+        .and_then(|c| VerifyingKey::from_sec1_bytes(c.tbs_certificate.subject_public_key_info.subject_public_key.raw_bytes()).ok())
+        .map(|k| { let p = k.to_encoded_point(false); let mut v = p.x().unwrap().to_vec(); v.extend_from_slice(p.y().unwrap()); hex::encode(v) }).unwrap_or("-".into());
+    let payload = ia.and_then(|a| a.get(2)).and_then(|p| p.as_bytes()).cloned();
+    let msov = payload.as_ref().and_then(|p| cbor::from_slice::<Value>(p).ok()).and_then(|v| match v { Value::Tag(24, b) => b.as_bytes().and_then(|bb| cbor::from_slice::<Value>(bb).ok()), _ => None }).is_some();
+    let tok = |k: &str| f.split(' ').find(|t| t.starts_with(&format!("{k}="))).map(|t| t.to_string()).unwrap_or_default();
+    let real = format!("{} msov={} {} {} {} {}", tok("isa"), if msov { "t" } else { "f" }, tok("dkey"), tok("dsa"), tok("dig"), tok("dt"));
+    (format!("facts.crypto {} {} {}", hex::encode(to_bytes(v)), hex::encode(to_bytes(transcript)), key), real)
+}
+
 /// `issuerSigned.nameSpaces` of the first document of type mDL (an absent member = the empty map)
 pub fn mdl_namespaces(v: &Value) -> Option<Value> {
     let d = mget(v, "documents").and_then(|d| d.as_array()).and_then(|a| a.iter().find(|x| mget(x, "docType").and_then(|s| s.as_text()) == Some(MDL)))?;
@@ -255,6 +273,11 @@ pub fn render_report(r: &std::collections::BTreeMap<String, serde_json::Value>) 
 pub fn eval(ctx: &mut Ctx, tag: &str, live: &Live, registry: &TrustAnchorRegistry, v: &Value, specs: &[&str], transcript_for_facts: &Value) {
     for after_genuine in [false, true] {
         let mut f = facts(v, registry, transcript_for_facts);
+        // the harness's abstraction function against the model's own computation of the cryptographic facts (once per message)
+        // (the model's ECDSA costs two scalar multiplications per signature: at most 4000 messages per run go through it)
+        static FACTS_LINES: std::sync::atomic::AtomicUsize = std::sync::atomic::AtomicUsize::new(0);
+        if !after_genuine && FACTS_LINES.fetch_add(1, std::sync::atomic::Ordering::Relaxed) < 4000 { let (op, real) = crypto_facts_line(v, &f, transcript_for_facts);
+            ctx.emit.line("corr", &format!("facts:{tag}"), op, real, serde_json::json!({"alteration": tag, "msg_hex": hex::encode(to_bytes(v))})); }
         let r = live.deliver_mode(v, after_genuine);
         if let Ok(o) = &r { if !reported_covered(v, o) { f = f.replace("dig=t", "dig=f"); } }
         let (real, issuer, device, errs_empty) = outcome_str(&r);
@@ -385,6 +408,17 @@ pub fn run_c04(ctx: &mut Ctx) {
         let base = live.resp.clone();
         let go = |ctx: &mut Ctx, name: &str, v: &mut Value, resign: bool| { if resign { live.resign_device(v, &live.sim.device_key); } eval(ctx, name, &live, &reg, v, &["c04", "c03", "c05"], &live.transcript) };
         go(ctx, "authentic", &mut base.clone(), false);
+        // the model's reading of CBOR into a `ciborium::Value` against ciborium's own, on every single-bit flip of a real MSO payload
+        // (first session; thorough: of every session's) and on random byte strings: accepted or not
+        if s == 0 || ctx.thorough {
+            let payload = issuer_auth_mut(&mut base.clone()).get(2).and_then(|p| p.as_bytes()).cloned().unwrap_or_default();
+            let inner = match cbor::from_slice::<Value>(&payload) { Ok(Value::Tag(24, b)) => b.as_bytes().cloned().unwrap_or_default(), _ => vec![] };
+            for src in [&payload, &inner] { for i in 0..src.len() * 8 { if !ctx.thorough && s == 0 && i % 3 != 0 && i > 400 { continue; }
+                let mut m = src.clone(); m[i / 8] ^= 1 << (i % 8);
+                ctx.emit.corr("cbor:value-accepts:bitflip", format!("cbor.valueok {}", hex::encode(&m)), (if cbor::from_slice::<Value>(&m).is_ok() { "t" } else { "f" }).to_string()); } }
+            for _ in 0..(if ctx.thorough { 300 } else { 1500 }) { let m: Vec<u8> = (0..rng.gen_range(1..24)).map(|_| rng.gen()).collect();
+                ctx.emit.corr("cbor:value-accepts:random", format!("cbor.valueok {}", hex::encode(&m)), (if cbor::from_slice::<Value>(&m).is_ok() { "t" } else { "f" }).to_string()); }
+        }
         let n_items = items_mut(&mut base.clone(), NS).map(|a| a.len()).unwrap_or(0);
         let edit_item = |v: &mut Value, idx: usize, f: &dyn Fn(&mut Value)| {
             if let Some(items) = items_mut(v, NS) { if let Value::Tag(24, b) = &mut items[idx] { if let Value::Bytes(bytes) = &mut **b {
